@@ -129,7 +129,7 @@ Qed.
 Lemma step_ok_full :
   forall k o, inv k -> op_ok o ->
     exists k' x, step k o = Ok (k', x) /\ inv k' /\ out_ok k' x /\
-      ((match o with ONoDelay _ _ _ _ => False | _ => True end) -> keeps k k').
+      ((match o with ONoDelay nd _ _ _ => nd < 0 | _ => True end) -> keeps k k').
 Proof.
   intros k o Hinv Hop. destruct o as [b|n|d reg nd now|full now|now|now|m|nd iv rs nc]; cbn [step op_ok] in *.
   - destruct (send_ok k b Hinv Hop) as (k' & r & Hs & Hi & Hr & Hm & Hmin & Hrto).
@@ -158,7 +158,10 @@ Proof.
     + destruct Hs as [(_ & _ & Hi) | (_ & He)]; [exact Hi | subst; exact Hinv].
     + split; [constructor|]. intros _. destruct Hk as (Ha & Hb & Hc). split; [exact Ha | exact Hb].
   - exists (set_nodelay k nd iv rs nc), (mkOut 0 [] []).
-    split; [reflexivity|]. split; [apply nodelay_inv; exact Hinv|]. split; [constructor|]. intros [].
+    split; [reflexivity|]. split; [apply nodelay_inv; exact Hinv|]. split; [constructor|].
+    intros Hneg. unfold keeps, rto_inv, set_nodelay.
+    assert (E : (nd >=? 0) = false) by (rewrite Z.geb_leb; apply Z.leb_gt; exact Hneg).
+    rewrite E. destruct k; cbn. split; auto.
 Qed.
 
 Lemma step_ok :
@@ -217,7 +220,7 @@ Qed.
 
 Lemma run_rto_bounds :
   forall ops k k' outs, inv k -> rto_inv k -> Forall op_ok ops ->
-    Forall (fun o => match o with ONoDelay _ _ _ _ => False | _ => True end) ops ->
+    Forall (fun o => match o with ONoDelay nd _ _ _ => nd < 0 | _ => True end) ops ->
     run k ops = Some (k', outs) ->
     (rx_minrto k' = 30 \/ rx_minrto k' = 100) /\ rx_minrto k' <= rx_rto k' <= 60000.
 Proof.
